@@ -621,8 +621,13 @@ def run_property(pid, tier, seed, only=None, jobs=None):
         "wall_s": round(time.time() - t0, 2),
         "violations": len(violations),
     }
-    os.makedirs(os.path.join(VERIF, "evidence"), exist_ok=True)
-    with open(os.path.join(VERIF, "evidence", pid + ".json"), "w") as f:
+    # evidence/<id>.json describes a complete run of the registered command against /repo; partial runs (--only) and runs
+    # against another tree (VERIF_REPO, used for seeded changes and background snapshots) are written to a scratch directory
+    evdir = os.path.join(VERIF, "evidence")
+    if only is not None or os.path.abspath(os.environ.get("VERIF_REPO", "/repo")) != "/repo":
+        evdir = os.path.join(VERIF, ".cache", "evidence-scratch")
+    os.makedirs(evdir, exist_ok=True)
+    with open(os.path.join(evdir, pid + ".json"), "w") as f:
         json.dump(_sanitize(evid), f, indent=1, allow_nan=False, default=_nanfix, sort_keys=True)
 
     # open findings whose witness still fails
